@@ -290,6 +290,35 @@ pub fn install_panic_recorder() {
     }));
 }
 
+/// panics seen in the main process that have not been caught by `guarded`: (thread, message, location)
+static OPEN_PANICS: std::sync::Mutex<Vec<(std::thread::ThreadId, String, String)>> = std::sync::Mutex::new(Vec::new());
+
+/// Hook for the main (non-child) process: prints every panic (message + location) and remembers the
+/// FIRST one process-wide, so that a panic propagated out of a rayon worker keeps its origin.
+pub fn install_first_panic_recorder() {
+    std::panic::set_hook(Box::new(|info| {
+        let msg = info.payload().downcast_ref::<String>().cloned()
+            .or_else(|| info.payload().downcast_ref::<&str>().map(|s| s.to_string()))
+            .unwrap_or_default();
+        let loc = info.location().map(|l| format!("{}:{}", l.file(), l.line())).unwrap_or_default();
+        eprintln!("panicked: {msg} at {loc}");
+        LAST_PANIC.with(|p| *p.borrow_mut() = Some((msg.clone(), loc.clone())));
+        if let Ok(mut g) = OPEN_PANICS.lock() {
+            if g.len() < 64 { g.push((std::thread::current().id(), msg, loc)); }
+        }
+    }));
+}
+/// the first panic that was not caught by `guarded` (i.e. the one that escaped an explorer)
+pub fn first_panic() -> Option<(String, String)> {
+    OPEN_PANICS.lock().ok().and_then(|g| g.first().map(|x| (x.1.clone(), x.2.clone())))
+}
+fn forget_caught_panic() {
+    if let Ok(mut g) = OPEN_PANICS.lock() {
+        let me = std::thread::current().id();
+        if let Some(i) = g.iter().rposition(|x| x.0 == me) { g.remove(i); }
+    }
+}
+
 #[derive(Debug, Clone, PartialEq)]
 pub enum Outcome<T> {
     Value(T),
@@ -306,6 +335,7 @@ pub fn guarded<T>(f: impl FnOnce() -> T) -> Outcome<T> {
     match std::panic::catch_unwind(std::panic::AssertUnwindSafe(f)) {
         Ok(v) => Outcome::Value(v),
         Err(_) => {
+            forget_caught_panic();
             let (msg, loc) = LAST_PANIC.with(|p| p.borrow_mut().take()).unwrap_or_default();
             let in_repo = loc.starts_with("/repo/") || loc.starts_with("src/") && !loc.starts_with("src/props") && !loc.starts_with("src/bin");
             let in_harness = loc.contains("/verif/mc/") || loc.starts_with("src/props") || loc.starts_with("src/models") || loc.starts_with("src/isolate");
